@@ -182,6 +182,7 @@ type Obligation struct {
 	Raw      string
 	SMTFile  string
 	HasQuant bool
+	Static   bool // decided structurally (no solver query)
 }
 
 // ModelVar names a term whose value we want from a counterexample.
